@@ -13,9 +13,9 @@ git diff -- pyscsi > $out/patch.diff
 cp _seed/demo.py $out/demo.py 2>/dev/null
 echo "== tests with the change"; /venv/bin/python -m pytest -q -p no:cacheprovider 2>&1 | tail -1 | tee $out/tests_with_change.txt
 echo "== demo with the change"; PYTHONPATH=$wt /venv/bin/python _seed/demo.py > $out/demo_with_change.txt 2>&1; echo "exit=$?" | tee -a $out/demo_with_change.txt; tail -3 $out/demo_with_change.txt
-git stash -q
+git apply -R $out/patch.diff   # (not git stash: the stash is shared by all worktrees of a repository)
 echo "== demo without the change"; PYTHONPATH=$wt /venv/bin/python _seed/demo.py > $out/demo_without_change.txt 2>&1; echo "exit=$?" | tee -a $out/demo_without_change.txt
-git stash pop -q
+git apply $out/patch.diff
 cd /verif
 if ! git -C /repo diff --quiet; then echo "/repo is dirty, refusing"; exit 2; fi
 trap "git -C /repo checkout -- . ; git -C /verif checkout -- evidence 2>/dev/null" EXIT INT TERM
